@@ -200,3 +200,21 @@ MUTANTS += [
     M('C13', 'multikey-default-list-shared', 'matcher.py', "                        v[:] = default", "                        values[attr] = v = default if not isinstance(default, list) else (default if False else ci._default)"),
     M('C13', 'schema-matcher-reused', 'loader.py', "        return ZConfig.matcher.SchemaMatcher(self.schema)", "        sm = getattr(self.schema, '_vf_sm', None)\n        if sm is None:\n            sm = ZConfig.matcher.SchemaMatcher(self.schema)\n            try:\n                self.schema._vf_sm = sm\n            except Exception:\n                pass\n        return sm"),
 ]
+
+MUTANTS += [
+    # ---------------- C20
+    M('C20', 'blather-16', 'components/logger/datatypes.py', '"blather": 15,', '"blather": 16,'),
+    M('C20', 'level-ge-50', 'components/logger/datatypes.py', 'if v < 0 or v > 50:', 'if v < 0 or v >= 50:'),
+    M('C20', 'level-lower-dropped', 'components/logger/datatypes.py', 's = str(value).lower()', 's = str(value)'),
+    M('C20', 'old-files-check-dropped', 'components/logger/handlers.py', '            if not old_files:\n                raise ValueError("old-files must be set for log rotation")\n', ''),
+    M('C20', 'std-ignores-delay', 'components/logger/handlers.py', '            if delay:\n                raise ValueError("cannot delay opening " + path)\n', ''),
+    M('C20', 'when-max-conflict-dropped', 'components/logger/handlers.py', '                if max_bytes:\n                    raise ValueError("can\'t set *both* max_bytes and when")\n', ''),
+    M('C20', 'factory-not-memoised', 'components/logger/factory.py', '        if self.instance is _marker:\n            self.instance = self.create()\n        return self.instance', '        self.instance = self.create()\n        return self.instance'),
+    M('C20', 'propagate-not-applied', 'components/logger/logger.py', '        logger.propagate = self.propagate\n', ''),
+    M('C20', 'closeFiles-keeps-registry', 'components/logger/loghandler.py', '    while _reopenable_handlers:\n        wr = _reopenable_handlers.pop()\n        h = wr()\n        if h is not None:\n            h.close()', '    for wr in list(_reopenable_handlers):\n        h = wr()\n        if h is not None:\n            logging.FileHandler.close(h)'),
+    M('C20', 'handler-level-not-set', 'components/logger/handlers.py', '        logger.setLevel(self.section.level)\n        return logger', '        return logger'),
+    M('C20', 'style-case-sensitive', 'components/logger/formatter.py', '    if value.lower() in _log_format_styles:\n        return value.lower()', '    if value in _log_format_styles:\n        return value'),
+    M('C20', 'get-or-post-accepts-put', 'components/logger/handlers.py', "    if value not in ('GET', 'POST'):", "    if value not in ('GET', 'POST', 'PUT'):"),
+    M('C20', 'rotating-without-maxbytes-falls-to-plain', 'components/logger/handlers.py', '            else:\n                raise ValueError(\n                    "max-bytes or when must be set for log rotation")', '            else:\n                factory = functools.partial(\n                    loghandler.FileHandler,\n                    path, encoding=encoding, delay=delay)'),
+    M('C20', 'formatter-not-built-at-load', 'components/logger/formatter.py', '        # should be reported when the configuration is loaded, not when\n        # the handler is created.\n        self()\n', '        # should be reported when the configuration is loaded, not when\n        # the handler is created.\n'),
+]
